@@ -49,8 +49,8 @@ func (x *c13ctx) call(text []byte, argv []string, note string) {
 		known := ""
 		if strings.HasPrefix(note, "dense first-call graph n=") && (strings.Contains(desc, "does not terminate") || strings.Contains(desc, "died")) {
 			// finding D36: the cycle enumeration of the left-recursion analysis is factorial in the
-			// size of a strongly connected component (matcher: this family, 10 or more rules)
-			if n, _ := strconv.Atoi(strings.TrimPrefix(note, "dense first-call graph n=")); n >= 10 {
+			// size of a strongly connected component (matcher: this family, 9 or more rules)
+			if n, _ := strconv.Atoi(strings.TrimPrefix(note, "dense first-call graph n=")); n >= 9 { // (9 rules: 2.3 s on an idle machine, beyond the watchdog on a loaded one)
 				known = "dense-cycle-enumeration"
 			}
 		}
